@@ -6,13 +6,28 @@
 // every other path goes to the renamed original implementation in file.go.
 package util
 
-import "sync"
+import (
+	"fmt"
+	"os"
+	"path/filepath"
+	"sync"
+	"sync/atomic"
+)
 
 // VDev is a scripted device model standing in for one sysfs / plain file.
 type VDev interface {
 	VRead() (int, error)
 	VWrite(v int) error
 }
+
+// VTextDev is optionally implemented by a device model: when VReadText reports use == true the
+// device only decides the *content* of the file and the tree's own ReadIntFromFile parses it (through a
+// scratch file), so that what fan2go makes of blank, non-numeric or "nan" content is fan2go's doing.
+type VTextDev interface {
+	VReadText() (text string, use bool)
+}
+
+var verifTextSeq atomic.Uint64
 
 var verifDevs sync.Map // path -> VDev
 
@@ -28,6 +43,16 @@ func verifDev(path string) VDev {
 
 func ReadIntFromFile(path string) (int, error) {
 	if d := verifDev(path); d != nil {
+		if td, ok := d.(VTextDev); ok {
+			if text, use := td.VReadText(); use {
+				tmp := filepath.Join(os.TempDir(), fmt.Sprintf("verif-vtext-%d-%d", os.Getpid(), verifTextSeq.Add(1)))
+				if err := os.WriteFile(tmp, []byte(text), 0644); err != nil {
+					return -1, err
+				}
+				defer os.Remove(tmp)
+				return verifOrigReadIntFromFile(tmp)
+			}
+		}
 		return d.VRead()
 	}
 	return verifOrigReadIntFromFile(path)
